@@ -52,6 +52,7 @@ func (s *Sender) Run(ctx context.Context) {
 				if stream == nil {
 					sink = s.Sink
 				} else {
+					sink = nil // a stream is held: taking another one from the Sink would overwrite it and lose its callback
 					streamCancel = stream.Ctx.Done()
 				}
 				select {
